@@ -23,7 +23,23 @@ def _site() -> Optional[Path]:
     return None
 
 
-def _toplevel_names(path: Path) -> Set[str]:
+def _literal_all(path: Path) -> Optional[Set[str]]:
+    """The module's __all__ when it is a literal list of strings (what `import *` exports)."""
+    try:
+        tree = ast.parse(path.read_text())
+    except Exception:
+        return None
+    for st in tree.body:
+        if isinstance(st, ast.Assign) and any(isinstance(t, ast.Name) and t.id == "__all__" for t in st.targets):
+            try:
+                v = ast.literal_eval(st.value)
+            except Exception:
+                return None
+            return {x for x in v if isinstance(x, str)}
+    return None
+
+
+def _toplevel_names(path: Path, imports: bool = True) -> Set[str]:
     out: Set[str] = set()
     try:
         tree = ast.parse(path.read_text())
@@ -34,6 +50,8 @@ def _toplevel_names(path: Path) -> Set[str]:
         for st in body:
             if isinstance(st, (ast.FunctionDef, ast.AsyncFunctionDef, ast.ClassDef)):
                 out.add(st.name)
+            elif isinstance(st, (ast.Import, ast.ImportFrom)) and not imports:
+                continue
             elif isinstance(st, ast.Import):
                 for a in st.names:
                     out.add((a.asname or a.name).split(".")[0])
@@ -75,9 +93,10 @@ def torch_names() -> frozenset:
         names |= _toplevel_names(s / "__init__.py")
         for stub in (s / "_C" / "_VariableFunctions.pyi",):
             if stub.exists():
-                names |= _toplevel_names(stub)
+                names |= _toplevel_names(stub, imports=False)  # the C functions copied into torch's namespace
         # `from .functional import *` style re-exports: torch/functional.py __all__
         fp = s / "functional.py"
         if fp.exists():
-            names |= {n for n in _toplevel_names(fp) if not n.startswith("_")}
+            exported = _literal_all(fp)
+            names |= exported if exported is not None else {n for n in _toplevel_names(fp, imports=False) if not n.startswith("_")}
     return frozenset(names)
